@@ -500,7 +500,7 @@ def correspondence(run):
     torch.set_num_threads(1)
     rng = run.rng
     n_enc = 300 if run.quick else 2500
-    n_dedup = 500 if run.quick else 4000
+    n_dedup = 500 if run.quick else 2500
     n_pipe = 24 if run.quick else 300
     _dedup_batch()
     run.assumptions.append("dedup_batch obtained by: " + _dedup_cache["how"])
